@@ -15,7 +15,7 @@ from gmg import drv, ir, report, solve_runs as sr
 from gmg.terms import show
 
 EXT = {0: "NONE", 1: "IMPLICIT", 2: "FULL_GRID", 3: "COMBINED"}
-UB_KINDS = ("undef-read", "oob-list", "null-deref", "bad-optional", "unallocated", "uninitialised-operator", "oob-level")
+UB_KINDS = ("nan", "undef-read", "oob-list", "null-deref", "bad-optional", "unallocated", "uninitialised-operator", "oob-level")
 
 
 def modes(tier):
